@@ -113,7 +113,7 @@ func cmdSelftestEngine() int {
 }
 
 func cmdReplay(args []string) int {
-	repo, verif := "/repo", "/verif"
+	repo, verif := envOr("VERIF_REPO", "/repo"), envOr("VERIF_DIR", "/verif")
 	if len(args) < 1 {
 		fmt.Fprintln(os.Stderr, "usage: symgo replay <path>")
 		return 2
